@@ -1,29 +1,42 @@
 #!/usr/bin/env python3
-"""apply every seeded change to /repo in turn, run the property's check, undo; record the result in meta.json.
-usage: run_seeded.py [PID ...] [--tier quick|thorough]"""
-import glob, json, os, re, subprocess, sys
-tier = "quick"
-args = [a for a in sys.argv[1:] if not a.startswith("--")]
-if "--tier" in sys.argv:
-    tier = sys.argv[sys.argv.index("--tier") + 1]; args = [a for a in args if a != tier]
-def sh(c):
-    return subprocess.run(c, shell=True, capture_output=True, text=True)
-assert sh("git -C /repo status --porcelain --untracked-files=no").stdout.strip() == "", "/repo has uncommitted changes"
-for d in sorted(glob.glob("/verif/seeded/*/")):
+"""run the property's check against every seeded change and record the result in meta.json.
+Each change is applied to its own scratch worktree of /repo's HEAD (the check analyses it through VERIF_REPO), which is removed
+afterwards; /repo itself is not touched, so the changes are tried in parallel.
+usage: run_seeded.py [PID|NAME ...] [--tier quick|thorough] [--par N]"""
+import glob, json, os, re, subprocess, sys, tempfile
+from concurrent.futures import ThreadPoolExecutor
+argv = sys.argv[1:]
+def opt(name, default):
+    if name in argv:
+        i = argv.index(name); v = argv[i + 1]; del argv[i:i + 2]; return v
+    return default
+tier = opt("--tier", "quick")
+par = int(opt("--par", "4"))
+args = argv
+def sh(c, **k):
+    return subprocess.run(c, shell=True, capture_output=True, text=True, **k)
+os.makedirs("/tmp/wt", exist_ok=True)
+
+def one(d):
     name = os.path.basename(d.rstrip("/"))
     meta = json.load(open(d + "meta.json"))
     pid = meta["property"]
-    if args and pid not in args and name not in args:
-        continue
     if not os.path.exists(f"/verif/checks/{pid}.py"):
-        print(f"{name}: no check for {pid} yet"); continue
-    a = sh(f"git -C /repo apply {d}patch.diff")
-    if a.returncode:
-        print(f"{name}: PATCH DOES NOT APPLY"); meta["detected_by"] = "patch no longer applies to HEAD"; continue
+        return f"{name}: no check for {pid} yet"
+    wt = tempfile.mkdtemp(prefix="seed_", dir="/tmp/wt"); os.rmdir(wt)
     try:
-        r = sh(f"cd /verif && ./check {pid} --tier {tier} --no-evidence")
+        a = sh(f"git -C /repo worktree add -q --detach {wt} HEAD")
+        assert a.returncode == 0, a.stderr
+        a = sh(f"git -C {wt} apply {d}patch.diff")
+        if a.returncode:
+            a = sh(f"cd {wt} && git apply --3way {d}patch.diff && git reset -q")
+        if a.returncode:
+            meta["detected_by"] = "patch no longer applies to HEAD"
+            json.dump(meta, open(d + "meta.json", "w"), indent=1)
+            return f"{name}: PATCH DOES NOT APPLY"
+        r = sh(f"cd /verif && VERIF_REPO={wt} ./check {pid} --tier {tier} --no-evidence --jobs {max(2, 16 // par)}")
     finally:
-        sh("git -C /repo checkout -- .")
+        sh(f"git -C /repo worktree remove --force {wt}"); sh(f"rm -rf {wt}")
     out = r.stdout
     harn = sorted(set(re.findall(r"^  harness=(\S+)", out, re.M)))
     nviol = len(re.findall(r"^VIOLATION", out, re.M))
@@ -33,4 +46,15 @@ for d in sorted(glob.glob("/verif/seeded/*/")):
                                example=(first.group(0).strip()[:500] if first else None),
                                summary=out.strip().splitlines()[-1][:300] if out.strip() else "")
     json.dump(meta, open(d + "meta.json", "w"), indent=1)
-    print(f"{name}: {verdict} exit={r.returncode} harnesses={harn} violations={nviol}")
+    return f"{name}: {verdict} exit={r.returncode} harnesses={harn} violations={nviol}"
+
+todo = []
+for d in sorted(glob.glob("/verif/seeded/*/")):
+    name = os.path.basename(d.rstrip("/"))
+    pid = json.load(open(d + "meta.json"))["property"]
+    if args and pid not in args and name not in args:
+        continue
+    todo.append(d)
+with ThreadPoolExecutor(par) as ex:
+    for line in ex.map(one, todo):
+        print(line, flush=True)
